@@ -95,6 +95,9 @@ type WSScript struct {
 	Note   string
 	// Prefix = bytes of well-formed packets sent before the hostile part (0 = none)
 	Prefix int
+	// Deflate: the peer offers permessage-deflate in its upgrade request and compresses its
+	// data messages when the server agrees
+	Deflate bool
 }
 
 func (s *WSScript) BytesTotal() int {
@@ -121,6 +124,9 @@ func (s *WSScript) Witness() map[string]any {
 	w := map[string]any{"family": s.Family, "sub": s.Sub, "end": s.End, "acts": len(s.Acts), "bytes": s.BytesTotal()}
 	if s.Note != "" {
 		w["note"] = s.Note
+	}
+	if s.Deflate {
+		w["client_offers_permessage_deflate"] = true
 	}
 	var acts []map[string]any
 	for i, a := range s.Acts {
